@@ -253,6 +253,13 @@ class Fn:
             elif k == 'CXXThisExpr':
                 return ('this', tuple(reversed(path)))
             elif k == 'DeclRefExpr':
+                al = self.ref_aliases().get(n.get('did')) if n.get('dk') == 'local' else None
+                if al is not None and len(path) < 40:
+                    kind, target = al
+                    if kind == 'elem':
+                        path.append('elem')
+                    n = self.strip(target)
+                    continue
                 return (n.get('dk', 'other'), n.get('name'), tuple(reversed(path)))
             elif k in ('CXXMemberCallExpr',):
                 path.append('()' + (n.get('callee') or ''))
@@ -278,6 +285,28 @@ class Fn:
             else:
                 return (k, None, tuple(reversed(path)))
         return ('?',)
+
+    def ref_aliases(self):
+        """did -> ('ref', init node) for local reference variables, ('elem', range node) for by-reference range-for variables"""
+        if getattr(self, '_refal', None) is None:
+            out = {}
+            loopvars = {}
+            for s in self.rec['stmts']:
+                if s['k'] == 'CXXForRangeStmt' and 'loopvar' in s and 'range' in s:
+                    lv = self.stmts.get(s['loopvar'])
+                    if lv and lv.get('decls'):
+                        loopvars[lv['decls'][0]['did']] = self.stmts[s['range']]
+            for s in self.rec['stmts']:
+                if s['k'] == 'DeclStmt':
+                    for d in s.get('decls', []):
+                        if not d.get('ref'):
+                            continue
+                        if d['did'] in loopvars:
+                            out[d['did']] = ('elem', loopvars[d['did']])
+                        elif 'init' in d and d['init'] in self.stmts:
+                            out[d['did']] = ('ref', self.stmts[d['init']])
+            self._refal = out
+        return self._refal
 
     # ---- CFG: fine-grained graph whose nodes are (block, index) positions
     @property
